@@ -72,6 +72,8 @@ def main():
                     m = {}
                 json.dump({"area": m.get("area", rid), "summary": m.get("summary", ""), "why_equivalent": m.get("why_equivalent", ""), "author": "independent sub-agent asked for behaviour-preserving refactorings; saw nothing of /verif"}, open(f"{d}/meta.json", "w"), indent=1)
         todo = [f"{r}-{k}" for r in sys.argv[2:] for k in "123" if os.path.isdir(f"{ROOT}/{r}-{k}")]
+    elif mode == "only":
+        todo = [x for x in sys.argv[2:] if os.path.exists(f"{ROOT}/{x}/patch.diff")]
     else:
         todo = sorted(x for x in os.listdir(ROOT) if os.path.exists(f"{ROOT}/{x}/patch.diff"))
     with ProcessPoolExecutor(max_workers=8) as ex:
